@@ -182,4 +182,43 @@ theorem fixAtomsIn_unique (m : Mol) (env : StereoEnv) (al : List Nat) (hnd : m.i
   have : a1 = a2 := assoc_unique m.atoms hnd n1 a1 a2 h1 h2
   subst this; rfl
 
+theorem setAtomStereo_ids (m : Mol) (n : Nat) (s : Bool) : (setAtomStereo m n s).ids = m.ids := by
+  simp only [Mol.ids, setAtomStereo, List.map_map]
+  apply List.map_congr_left
+  intro ⟨k, a⟩ _
+  simp only [Function.comp_apply]
+  split <;> rfl
+
+theorem setBondLabel_ids (m : Mol) (n k : Nat) (s : Bool) : (setBondLabel m n k s).ids = m.ids := rfl
+
+theorem moveTetra_ids (env : StereoEnv) (isH : Nat → Bool) : ∀ (tet : List (Nat × List Nat × Bool)) (m m' : Mol),
+    moveTetra env isH tet m = .ok m' → m'.ids = m.ids := by
+  intro tet
+  induction tet with
+  | nil => intro m m' h; simp only [moveTetra, Except.ok.injEq] at h; rw [h]
+  | cons t rest ih =>
+    intro m m' h
+    obtain ⟨n, nb, s⟩ := t
+    simp only [moveTetra] at h
+    split at h
+    · exact ih m m' h
+    · split at h
+      · rw [ih _ m' h, setAtomStereo_ids]
+      · exact ih m m' h
+      · cases h
+
+theorem moveCisTrans_ids (env : StereoEnv) (isH : Nat → Bool) : ∀ (ct : List (Nat × Nat × Nat × Nat × Bool)) (m m' : Mol),
+    moveCisTrans env isH ct m = .ok m' → m'.ids = m.ids := by
+  intro ct
+  induction ct with
+  | nil => intro m m' h; simp only [moveCisTrans, Except.ok.injEq] at h; rw [h]
+  | cons t rest ih =>
+    intro m m' h
+    obtain ⟨n, k, nn, nk, s⟩ := t
+    simp only [moveCisTrans] at h
+    split at h
+    · rw [ih _ m' h, setBondLabel_ids]
+    · exact ih m m' h
+    · cases h
+
 end ChythonModel.Proofs.C20
